@@ -269,6 +269,8 @@ def _c09_specs(tier):
                     # a decoder that starts life without a grammar, and non-default search options
                     ('c09-boot-nogram-len4', ['--set', 'boot', '--len', '4', '--nogram', '1'], 8),
                     ('c09-nofiller-core-len2', ['--set', 'core', '--len', '2', '--cfg', 'fsgusefiller=no'], 2),
+                    ('c09-nofiller-lat-len4', ['--set', 'lat', '--len', '4', '--cfg', 'fsgusefiller=no'], 4),
+                    ('c09-noalt-nobestpath-lat-len4', ['--set', 'lat', '--len', '4', '--cfg', 'fsgusealtpron=no,bestpath=no'], 4),
                     ('c09-noalt-nobestpath-core-len2', ['--set', 'core', '--len', '2', '--cfg', 'fsgusealtpron=no,bestpath=no'], 2)]
     return [('c09-all-len3', ['--set', 'all', '--len', '3']), ('c09-core-len4', ['--set', 'core', '--len', '4']),
             ('c09-proto-len6', ['--set', 'proto', '--len', '6']), ('c09-two-core-len3', ['--set', 'core', '--len', '3', '--two', '1'])] + [
